@@ -633,6 +633,33 @@ pub fn show_value(v: &Val, sort: &Sort, hex_when_possible: bool) -> String {
         }
         (Val::A(a), Sort::Arr(i, e)) => {
             let mut s = format!("((as const {}) {})", sort.show(), show_value(&Val::B(Bv::new(a.dw, a.default.clone())), e, hex_when_possible));
+            // REFSMT_ARRAY_STYLE: legal spellings of the same array value a solver may choose.
+            //   shadowed   - every index of the first four (and every stored index) is first written with the
+            //                complemented data and then with its real value, also where that is the default
+            //   descending - stores in descending index order
+            let style = std::env::var("REFSMT_ARRAY_STYLE").unwrap_or_default();
+            if style == "shadowed" {
+                let mask = (num_bigint::BigUint::from(1u8) << (a.dw as usize)) - num_bigint::BigUint::from(1u8);
+                let mut idxs: Vec<num_bigint::BigUint> = (0u32..4).map(num_bigint::BigUint::from).filter(|k| a.iw >= 32 || *k < (num_bigint::BigUint::from(1u8) << (a.iw as usize))).collect();
+                for k in a.map.keys() {
+                    if !idxs.contains(k) {
+                        idxs.push(k.clone());
+                    }
+                }
+                for k in idxs.iter() {
+                    let d = a.map.get(k).cloned().unwrap_or_else(|| a.default.clone());
+                    let junk = &mask ^ &d;
+                    let ks = show_value(&Val::B(Bv::new(a.iw, k.clone())), i, hex_when_possible);
+                    s = format!("(store (store {} {} {}) {} {})", s, ks, show_value(&Val::B(Bv::new(a.dw, junk)), e, hex_when_possible), ks, show_value(&Val::B(Bv::new(a.dw, d)), e, hex_when_possible));
+                }
+                return s;
+            }
+            if style == "descending" {
+                for (k, d) in a.map.iter().rev() {
+                    s = format!("(store {} {} {})", s, show_value(&Val::B(Bv::new(a.iw, k.clone())), i, hex_when_possible), show_value(&Val::B(Bv::new(a.dw, d.clone())), e, hex_when_possible));
+                }
+                return s;
+            }
             for (k, d) in a.map.iter() {
                 s = format!(
                     "(store {} {} {})",
